@@ -339,12 +339,14 @@ Exprs == {<<r>> : r \in RootSegs} \cup {<<r, a>> : r \in RootSegs, a \in Segs1}
 Exprs2 == {e \in Exprs : Len(e) <= Len2 /\ \A i \in 1..Len(e) : e[i].sel = "none"}
 NoExpr == <<>>
 FmtArgs == {<<>>} \cup {<<e>> : e \in Exprs} \cup {<<e1, e2>> : e1 \in Exprs2, e2 \in Exprs2}
-Fmts == {<<n, a>> \in (0..2) \X FmtArgs : n = Len(a) \/ (n = 1 /\ Len(a) = 0) \/ (n = 0 /\ a \in {<<e>> : e \in Exprs2})}
+\* <<number of specifiers, arguments>>: matching, one specifier too many, one argument too many
+Fmts == {<<Len(a), a>> : a \in FmtArgs} \cup {<<1, <<>>>>} \cup {<<0, <<e>>>> : e \in Exprs2}
 DefineToks == {Tok("define", <<n>>, e, 0, <<>>, {}) : n \in Lvals, e \in Exprs}
 FormatToks(k) == {Tok(k, <<>>, NoExpr, f[1], f[2], {}) : f \in Fmts}
-WFmts == {f \in Fmts : Len(f[2]) = 0 \/ (Len(f[2]) = 1 /\ f[2][1] \in Exprs2)}
+WFmts == {<<0, <<>>>>, <<1, <<>>>>} \cup {<<n, <<e>>>> : n \in 0..1, e \in Exprs2}
 WriteToks == {Tok("write_file", <<>>, e, f[1], f[2], kw) : e \in Exprs2, f \in WFmts, kw \in SUBSET {"filename", "contents"}}
-LoopToks == {Tok("loop", <<n1, n2>>, e, 0, <<>>, kw) : n1 \in Lvals \ {"$resp"}, n2 \in LoopVals, e \in Exprs, kw \in LoopForms}
+\* (an operator with a parameter, so that TLC builds the set where it is used and not for every configuration)
+LoopToks(forms) == {Tok("loop", <<n1, n2>>, e, 0, <<>>, kw) : n1 \in Lvals \ {"$resp"}, n2 \in LoopVals, e \in Exprs, kw \in forms}
 OtherToks == {Tok(k, <<>>, NoExpr, 0, <<>>, {}) : k \in {"unknown", "multi", "empty"}}
 StmtToks == (IF "define" \in Kinds THEN DefineToks ELSE {})
             \cup (IF "print" \in Kinds THEN FormatToks("print") ELSE {})
@@ -381,7 +383,7 @@ Init == /\ phase = "request" /\ req = <<>> /\ bases = <<>> /\ scopes = <<RootSco
         /\ verdict = "running"
 Next == \/ \E es \in ReqLists : ValidateRequest(es)
         \/ (NStmts < MaxLen /\ \E t \in StmtToks : Step(t))
-        \/ (NStmts < MaxLen /\ Depth < MaxDepth /\ "loop" \in Kinds /\ \E t \in LoopToks : Step(t))
+        \/ (NStmts < MaxLen /\ Depth < MaxDepth /\ "loop" \in Kinds /\ \E t \in LoopToks(LoopForms) : Step(t))
         \/ Step(EndTok)
         \/ Finish
 Done == verdict # "running"
@@ -390,12 +392,17 @@ Done == verdict # "running"
 (* accepted is taken if there is one, so that the sampled configurations are not all rejected at their first       *)
 (* statement.  (Rnd mentions a variable so that TLC does not fold the draw into a constant.)                       *)
 Rnd(S) == RandomElement(IF verdict = "" THEN {} ELSE S)
-PrintToks == FormatToks("print")
-CommentToks == FormatToks("comment")
+\* tokens are assembled from random components (the product sets are far too large to build)
+RndDefine == Tok("define", <<Rnd(Lvals)>>, Rnd(Exprs), 0, <<>>, {})
+RndFormat(k) == {Tok(k, <<>>, NoExpr, f[1], f[2], {}) : f \in {Rnd(Fmts)}}
+RndWrite == {Tok("write_file", <<>>, Rnd(Exprs2), f[1], f[2], Rnd(SUBSET {"filename", "contents"})) : f \in {Rnd(WFmts)}}
 RndLoop == Tok("loop", <<Rnd(Lvals \ {"$resp"}), Rnd(LoopVals)>>, Rnd(Exprs), 0, <<>>, Rnd(LoopForms))
-RndToks == {Rnd(DefineToks), Rnd(DefineToks), Rnd(PrintToks), Rnd(CommentToks), Rnd(WriteToks), Rnd(OtherToks), RndLoop, RndLoop, EndTok}
+RndToks == {RndDefine : i \in 1..6} \cup UNION {RndFormat("print") : i \in 1..3} \cup UNION {RndFormat("comment") : i \in 1..2}
+           \cup UNION {RndWrite : i \in 1..2} \cup {Rnd(OtherToks)} \cup {RndLoop : i \in 1..8} \cup {EndTok}
+\* request blocks: a random one, none, or one of a few that are accepted
+SimReqLists == {<<>>} \cup {<<ReqVocab[k]>> : k \in ReqKeys \cap {"name", "name/p=x", "count/p=y", "item.name"}}
 Fits(t) == IF t.k = "end" THEN Depth > 0 ELSE NStmts < MaxLen /\ (t.k = "loop" => Depth < MaxDepth)
-NextSim == \/ \E es \in {Rnd(ReqLists)} : ValidateRequest(es)
+NextSim == \/ \E es \in {Rnd(ReqLists), Rnd(SimReqLists), Rnd(SimReqLists)} : ValidateRequest(es)
            \/ /\ Running
               /\ \E T \in {RndToks} : \E pick \in {Rnd(1..5)} :
                     LET F == {t \in T : Fits(t)}
